@@ -386,10 +386,33 @@ def _do(world, st, op):
 
         return {'bytes': len(b1)}
     elif name == 'write_shared':
-        h = SimWriteHandle(world, 'shared-' + str(tname), 'dom-write')
-        start = len(h.file.data)
-        st.shared_writer.write_stream(tree, h)
-        return {'bytes_shared': bytes(h.file.data[start:]).hex()}
+        # one DiffXDOMWriter object reused for every tree of this world: its
+        # output must not depend on what it wrote before
+        try:
+            want = tree.to_bytes()
+        except Exception:
+            want = None
+
+        st.nshared = getattr(st, 'nshared', 0) + 1
+        h = SimWriteHandle(world, 'shared-%d' % st.nshared, 'dom-write')
+
+        try:
+            st.shared_writer.write_stream(tree, h)
+        except Exception as e:
+            if want is not None:
+                world.violate('C18.shared-writer-differs', 'raises:%s' % (
+                    type(e).__name__,), {'op': op, 'nth_use': st.nshared})
+
+            raise
+
+        got = bytes(h.file.data)
+
+        if want is not None and got != want:
+            world.violate('C18.shared-writer-differs', 'bytes',
+                          {'op': op, 'nth_use': st.nshared,
+                           'shared': got[:80], 'fresh': want[:80]})
+
+        return {'bytes_shared': len(got)}
     elif name == 'repr':
         repr(tree)
 
